@@ -1159,6 +1159,14 @@ class Interp:
             return ArrMethod(v, attr)
         if isinstance(v, (list, dict, set, str, tuple, frozenset)):
             return ArrMethod(v, attr)
+        if isinstance(v, BuiltinV) and attr == "fromkeys" and v.name == "dict":
+            def fromkeys(it, keys, value=None):
+                ks = it.iterable(keys)
+                if not isinstance(ks, list) or not all(is_concrete(k) for k in ks):
+                    raise Unsupported("dict.fromkeys over symbolic keys")
+                return {k: value for k in ks}
+
+            return BuiltinV("dict.fromkeys", fromkeys)
         if isinstance(v, Opaque):
             return Opaque(v.what + "." + attr)
         if v is None:
@@ -1414,7 +1422,11 @@ class Interp:
                     f = fam
                     break
             found.add(f)
-        if len(found) != 1 or None in found:
+        if len(found) > 1:
+            # one heap map per family: an object that may belong to several families must be narrowed first (dispatch on its
+            # class, or one contract per family) -- reading a map of its own would silently decouple it from the real fields
+            raise Unsupported("field %s of an object whose classes %s span several families" % (attr, sorted(o.classes)))
+        if None in found:
             return attr
         return "%s.%s" % (found.pop(), attr)
 
